@@ -55,7 +55,7 @@ func (g *gen) semi()       { g.t = append(g.t, tok{s: ";", k: tkPunct, optSC: tr
 var identPool = []string{"a", "b", "c", "x", "y", "foo", "$d", "_e", "é", "q1", "get", "set", "of", "let", "\\u0061b"}
 var numPool = []string{"0", "1", "7", "1.5", ".5", "0x1F", "1e3", "2E-2", "010", "9007199254740993", "0.0"}
 var strPool = []string{`'s'`, `"t"`, `''`, `"a\nb"`, `'\x41B'`, `"é✓"`, `'it\'s'`, `"\0"`, `'a\
-b'`, `"/*"`, `'//'`}
+b'`, `"/*"`, `'//'`, "'a\\\u2028b'", "\"a\\\u2029b\"", `'\477\08\400'`, `"\7\77\377"`}
 var rePool = []string{`/ab+c/g`, `/[/]/`, `/a\/b/i`, `/^x$/m`, `/\d+/`, `/[^a-z]/gi`, `/(a|b)*/`, `/=/`, `/é/`}
 var binOps = []string{"+", "-", "*", "/", "%", "<<", ">>", ">>>", "<", ">", "<=", ">=", "==", "!=", "===", "!==", "&", "|", "^", "&&", "||", "instanceof", "in"}
 var asgOps = []string{"=", "+=", "-=", "*=", "/=", "%=", "<<=", ">>=", ">>>=", "&=", "|=", "^="}
